@@ -299,6 +299,7 @@ AttemptEnum(reg, ptr, m, p, d) ==
   IN IF ty = TNone THEN Defer(<<>>)
      ELSE IF CHECKENUMBASE /\ ~isInt THEN FailA("enum-base-not-integer", <<>>)
      ELSE IF size = None THEN Defer(<<>>)
+     ELSE IF HasRawValue(d.vars) THEN FailA("unsupported-enum-value", <<>>)
      ELSE IF Cardinality(marks) > 1 THEN FailA("multiple-default", <<>>)
      ELSE IF d.defaultable /\ marks = {} THEN FailA("defaultable-without-default", <<>>)
      ELSE IF ~d.defaultable /\ marks # {} THEN FailA("default-without-defaultable", <<>>)
